@@ -59,6 +59,8 @@ def c09(tier, seed):
     variants = [
         ("vamm1", "swap_input", dict(dir="add", amount=1000, limit=0, over=False)),
         ("vamm1", "swap_output", dict(dir="rem", amount=50, limit=0)),
+        ("vamm1", "swap_input", dict(dir="add", amount=0, limit=0, over=False)),
+        ("vamm1", "swap_output", dict(dir="add", amount=0, limit=0)),
         ("vamm1", "settle_funding", {}),
         ("vamm1", "update_config", dict(toll=1)),
         ("vamm1", "update_owner", dict(owner="newowner")),
@@ -90,7 +92,7 @@ def c09(tier, seed):
         for (c, m, a) in variants:
             if c == "fpool" and m == "remove_token":
                 pass
-            for s in senders:
+            for s in senders + (["tr2"] if m in ("remove_whitelist", "add_whitelist") else []):
                 out.append(dict(id="c09-%d" % k, deploy=d, ops=pre_common + [tx(c, m, s, a)]))
                 k += 1
         # fee pool add_token needs the token absent first
@@ -326,6 +328,15 @@ def c03(tier, seed):
     """fee pool payouts and stray third parties"""
     out = []
     for coll in ("cw20", "native"):
+        native = coll == "native"
+        f = lambda m, lev=1000: (m + (m * lev // 100) * 15 // 100) if native else 0
+        for ptr in (tx("vamm1", "update_config", "owner", dict(ifund="stranger")),
+                    tx("engine", "update_config", "owner", dict(fpool="stranger")),
+                    tx("vamm1", "update_config", "owner", dict(feed="stranger"))):
+            out.append(dict(id="c03-ptr-%s-%d" % (coll, len(out)), deploy=dep(coll, vamms=[dict(toll=5, spread=10)]),
+                            ops=[block(15), opn("tr1", "buy", 2000, funds=f(2000)), ptr, opn("tr2", "sell", 1000, funds=f(1000)),
+                                 opn("tr1", "sell", 500, funds=(f(500) - 500) if native else 0), close("tr1"), close("tr2")]))
+    for coll in ("cw20", "native"):
         out.append(dict(id="c03-sendtoken-" + coll, deploy=dep(coll, fpool_bal=500),
                         ops=[tx("fpool", "send_token", "owner", dict(amount=100, recipient="tr3")),
                              tx("fpool", "send_token", "owner", dict(amount=1000, recipient="tr3")),
@@ -351,6 +362,12 @@ def c05(tier, seed):
                                query("engine", "margin_ratio", dict(vamm="vamm1", trader="tr1"))]
                         out.append(dict(id="c05-%d" % k, deploy=dep(coll, engine=dict(imr=imr, mmr=mmr)), ops=ops))
                         k += 1
+    # native deposits whose attached coins differ from the declared amount
+    for (amt, fnd) in ((300, 300), (300, 301), (300, 299), (300, 600), (1, 2), (300, 0)):
+        out.append(dict(id="c05dep-%d-%d" % (amt, fnd), deploy=dep("native"),
+                        ops=[block(15), opn("tr1", "buy", 1000, 500, funds=1000),
+                             tx("engine", "deposit_margin", "tr1", dict(vamm="vamm1", amount=amt), funds=fnd),
+                             query("engine", "position", dict(vamm="vamm1", trader="tr1"))]))
     # withdrawals around the free-collateral and bad-debt boundaries
     rng = random.Random(seed + 5)
     for j in range(60 if tier == "quick" else 400):
@@ -413,14 +430,30 @@ def c06(tier, seed):
                            liq("liq", "tr1")]
                     out.append(dict(id="c06s-%d" % k, deploy=dep("cw20", feed=feed, engine=dict(plr=0, liqfee=5)), ops=ops))
                     k += 1
-    # dust positions: the penalty / fee amounts round to zero although the ratios are non-zero
+    # dust positions: the penalty / fee amounts (or even the quote exchanged) round to zero although
+    # the ratios are non-zero; price collapses of increasing depth
     for plr in (0, 25, 100):
-        for m in (5, 15, 40):
-            ops = [block(15), opn("tr1", "buy", m, 200), opn("tr2", "sell", 3000, 1000), block(901),
-                   tx("feed", "append_price", "owner", dict(key="ETH", price=490, t=100916)),
-                   liq("liq", "tr1"), block(15), liq("liq", "tr1")]
-            out.append(dict(id="c06d-%d" % k, deploy=dep("cw20", engine=dict(plr=plr, liqfee=5)), ops=ops))
-            k += 1
+        for m in (3, 5, 8, 15, 40):
+            for (push, oracle) in ((3000, 490), (6000, 160), (8000, 40)):
+                for fin in ("liq", "close"):
+                    ops = [block(15), opn("tr1", "buy", m, 200), opn("tr2", "sell", push, 1000), block(901),
+                           tx("feed", "append_price", "owner", dict(key="ETH", price=oracle, t=100916))]
+                    ops += [liq("liq", "tr1"), block(15), liq("liq", "tr1")] if fin == "liq" else [close("tr1"), liq("liq", "tr1")]
+                    out.append(dict(id="c06d-%d" % k, deploy=dep("cw20", engine=dict(plr=plr, liqfee=5)), ops=ops))
+                    k += 1
+    # oracle moved inside the TWAP window: spot close to the *old* oracle price, far from the new one
+    for vside in ("buy", "sell"):
+        pside = "sell" if vside == "buy" else "buy"
+        for push in (2000, 2200, 2400, 2700):
+            for p2 in (800, 880, 940, 1080, 1160, 1240, 1320):
+                for feed in ("real", "mock"):
+                    ops = [block(15), opn("tr1", vside, 2500, 1000), opn("tr2", pside, push, 1000), block(901),
+                           tx("feed", "append_price", "owner", dict(key="ETH", price=p2, t=100916)),
+                           query("vamm1", "is_over_spread_limit", {}),
+                           query("engine", "margin_ratio", dict(vamm="vamm1", trader="tr1")),
+                           liq("liq", "tr1")]
+                    out.append(dict(id="c06o-%d" % k, deploy=dep("cw20", feed=feed, engine=dict(plr=0, liqfee=5)), ops=ops))
+                    k += 1
     return out
 
 def c07(tier, seed):
